@@ -85,6 +85,11 @@ PROPS = {
         'level_note': "Trusted: Lean kernel; harness; factx's origin analysis. Partial: net/http, JSON codec and goroutine scheduling are not modelled (sequentially consistent interleaving of three atomic steps per request); data races are observed with the race detector. Two genuine defects were found and fixed (known_findings.json).",
         'rule': "16 clients x N pod CREATE/UPDATE reviews with unique uids over privileged (shared response), exempt, baseline, restricted and malformed-label namespaces; 16 malformed classes (sizes around 3 MiB, content types, undecodable, v1beta1, other kind, no request). distinct_nontrivial = reviews sent",
     },
+    'C17': {
+        'level_text': "Theorems C17_versions (a document loads identically under each served version), C17_defaults / C17_empty_is_all_defaults, C17_strict_top / C17_strict_version / C17_strict_defaults (unknown or duplicated keys, wrong kind, unserved version are errors), C17_validate_iff (validation accepts exactly: six defaults parse, namespaces are DNS labels, runtime classes DNS subdomains, user names non-empty, no duplicates), C17_chain (accepted => ToPolicy succeeds field for field and an unlabeled namespace resolves to it). Document trees rendered as JSON and YAML are loaded and validated by the real code and compared with the model.",
+        'level_note': "Trusted: Lean kernel; harness. Modelled, not verified: the strict universal decoder's treatment of document trees (known keys, duplicates, null, wrong JSON types, case-sensitive keys) -- tied differentially; the JSON/YAML tokenizers (multi-document YAML, anchors, encodings) are outside the model. One genuine defect found and fixed (known_findings.json).",
+        'rule': "structurally valid documents (any subset of fields; valid and invalid values; names around the DNS length limits) plus 0-2 structural defects out of 14 kinds; every catalogued served / unserved apiVersion on a minimal and a full document; each document as JSON and YAML and, when served, re-loaded under the other served versions. distinct_nontrivial = distinct documents that load",
+    },
     'C18': {
         'level_text': "Theorems C18_pod / C18_controller (ExactlyOnce: enforce evaluation iff enforce-policy annotation, with the response's decision; exemption iff exempt; error iff flagged; audit/warn denial iff reported; nothing else) and C18_namespace, C18_label_bounded / C18_label_finite, C18_counts / C18_counts_perm / C18_reset; metric event lists of the real code compared with the model; the real PrometheusRecorder is driven from 16 goroutines and gathered.",
         'level_note': "Trusted: Lean kernel; harness. Not modelled: atomicity of Prometheus counters (observed under the race detector in the recorder run).",
